@@ -25,6 +25,13 @@ COQ = os.path.join(VERIF, "coq")
 BUILD = os.path.join(VERIF, "build")
 PY = "/venv/bin/python"
 REPO = os.environ.get("VERIF_REPO", "/repo")
+if os.path.realpath(REPO) != "/repo":
+    # checks against a scratch copy of the repository (mutation experiments) use a private copy of the
+    # Coq tree, so that regenerated constants never disturb the shared build
+    _priv = "/tmp/verif_coq_" + hashlib.sha1(os.path.realpath(REPO).encode()).hexdigest()[:10]
+    subprocess.run(["rsync", "-a", "--delete", "--exclude", "Makefile*", "--exclude", ".Makefile.d",
+                    COQ + "/", _priv + "/"], check=True)
+    COQ = _priv
 GUARD = "DISCRETISEDFIELD_VERIF"
 SHARD = 250
 
